@@ -15,6 +15,7 @@ import (
 	"sort"
 	"strings"
 	"sync"
+	"sync/atomic"
 	"time"
 
 	"verif/harness/internal/coqfmt"
@@ -124,20 +125,130 @@ func (r *rig) quiesce(tm lifeTiming, waits []*call, locked bool) (started string
 		}
 		return st, int(r.closes.Load()), w
 	}
+	// settled = unchanged for tm.quiet AND over at least 25 consecutive samples (a stall of the whole
+	// process lets wall-clock time pass without anything having had a chance to run)
 	ls, lc, lw := snap()
-	since := time.Now()
-	deadline := time.Now().Add(20 * tm.quiet)
-	for time.Since(since) < tm.quiet && time.Now().Before(deadline) {
+	since, same := time.Now(), 0
+	deadline := time.Now().Add(40 * tm.quiet)
+	for (time.Since(since) < tm.quiet || same < 25) && time.Now().Before(deadline) {
 		time.Sleep(5 * time.Millisecond)
 		s, c, w := snap()
 		if s != ls || c != lc || w != lw {
-			ls, lc, lw, since = s, c, w, time.Now()
+			ls, lc, lw, since, same = s, c, w, time.Now(), 0
+		} else {
+			same++
 		}
 		if s == "blocked" {
 			break
 		}
 	}
 	return ls, lc, lw
+}
+
+// stallWatch notices when the whole process did not get to run for a while (CPU contention, cgroup
+// throttling): a goroutine that sleeps 10 ms at a time records every gap above 200 ms.  A sequence that
+// overlaps such a gap is run again: its timing verdicts ("blocked", "settled") cannot be trusted.
+type stallWatch struct {
+	mu     sync.Mutex
+	stalls [][2]time.Time
+	stop   chan struct{}
+}
+
+func newStallWatch() *stallWatch {
+	w := &stallWatch{stop: make(chan struct{})}
+	go func() {
+		last := time.Now()
+		for {
+			select {
+			case <-w.stop:
+				return
+			default:
+			}
+			time.Sleep(10 * time.Millisecond)
+			now := time.Now()
+			if now.Sub(last) > 200*time.Millisecond {
+				w.mu.Lock()
+				w.stalls = append(w.stalls, [2]time.Time{last, now})
+				w.mu.Unlock()
+			}
+			last = now
+		}
+	}()
+	return w
+}
+
+func (w *stallWatch) overlaps(t0, t1 time.Time) bool {
+	w.mu.Lock()
+	defer w.mu.Unlock()
+	for _, s := range w.stalls {
+		if s[0].Before(t1) && s[1].After(t0) {
+			return true
+		}
+	}
+	return false
+}
+
+func (w *stallWatch) count() int {
+	w.mu.Lock()
+	defer w.mu.Unlock()
+	return len(w.stalls)
+}
+
+func sameObs(a, b []lifeObs) bool {
+	if len(a) != len(b) {
+		return false
+	}
+	for i := range a {
+		if a[i].Class != b[i].Class || a[i].Started != b[i].Started || a[i].Closes != b[i].Closes || a[i].Waiting != b[i].Waiting {
+			return false
+		}
+	}
+	return true
+}
+
+func hasBlocked(obs []lifeObs) bool {
+	for _, o := range obs {
+		if o.Class == "blocked" || o.Started == "blocked" {
+			return true
+		}
+	}
+	return false
+}
+
+// runLifeChecked runs a sequence until a run is free of process stalls; an observation that contains
+// "blocked" is accepted only when a second run with twice the bound observes exactly the same.
+// retries counts the repetitions for the evidence.
+func runLifeChecked(ops []lifeOp, tm lifeTiming, w *stallWatch, retries *atomic.Int32) ([]lifeObs, error) {
+	var last []lifeObs
+	for attempt := 0; attempt < 5; attempt++ {
+		t0 := time.Now()
+		obs, err := runLife(ops, tm)
+		if err != nil {
+			return nil, err
+		}
+		last = obs
+		time.Sleep(15 * time.Millisecond) // let the watcher see a stall that just ended
+		if w.overlaps(t0, time.Now()) {
+			retries.Add(1)
+			continue
+		}
+		if !hasBlocked(obs) {
+			return obs, nil
+		}
+		tm2 := tm
+		tm2.block *= 2
+		t1 := time.Now()
+		obs2, err := runLife(ops, tm2)
+		if err != nil {
+			return nil, err
+		}
+		time.Sleep(15 * time.Millisecond)
+		if !w.overlaps(t1, time.Now()) && sameObs(obs, obs2) {
+			return obs, nil
+		}
+		retries.Add(1)
+	}
+	return nil, fmt.Errorf("no stall-free, reproducible run in 5 attempts (last observation %+v)", last)
 }
 
 // runLife performs one sequence on a fresh stub and runtime.
@@ -179,9 +290,11 @@ func runLife(ops []lifeOp, tm lifeTiming) ([]lifeObs, error) {
 				o.Class = "ok"
 			}
 			if op.Beh == bDropInCfg && c.err == nil {
-				// the runtime end drops the connection once it has the Configure response
+				// the runtime end drops the connection 50 ms after it has the Configure response:
+				// wait until that has happened (its own ttrpc client saw the connection go away)
 				if s := r.rt.last(); s != nil {
 					waitC(s.configured, tm.block)
+					waitC(s.closed, tm.block)
 				}
 			}
 		case "stop":
@@ -197,6 +310,7 @@ func runLife(ops []lifeOp, tm lifeTiming) ([]lifeObs, error) {
 		case "lose":
 			if s := r.rt.last(); s != nil {
 				s.drop()
+				waitC(s.closed, tm.block)
 			}
 			o.Class = "returned"
 		default:
@@ -415,6 +529,8 @@ func driveLife(c *hx.Ctx) error {
 		err error
 	}
 	results := make([]result, len(seqs))
+	watch := newStallWatch()
+	var retries atomic.Int32
 	var wg sync.WaitGroup
 	sem := make(chan struct{}, 12)
 	for i := range seqs {
@@ -423,11 +539,14 @@ func driveLife(c *hx.Ctx) error {
 		go func(i int) {
 			defer wg.Done()
 			defer func() { <-sem }()
-			obs, err := runLife(seqs[i], tm)
+			obs, err := runLifeChecked(seqs[i], tm, watch, &retries)
 			results[i] = result{obs, err}
 		}(i)
 	}
 	wg.Wait()
+	close(watch.stop)
+	c.Count("process-stalls-seen", watch.count())
+	c.Count("sequences-repeated", int(retries.Load()))
 
 	for i, ops := range seqs {
 		if results[i].err != nil {
@@ -482,8 +601,9 @@ func driveLife(c *hx.Ctx) error {
 		"sequence of Start(healthy)/Stop/Wait of length <= 4 and with connection loss of length <= 3; for every fault f: f alone, f then " +
 		"healthy restart(s), f after Stop / after a loss, f in an immediate restart; Stop-then-immediate-Start repeated (the outcome depends on the " +
 		"lock race; both schedules are in the model's prediction set); thorough: 150 seeded sequences of length 5-8 over all operations. Observed per " +
-		"operation after everything settled (nothing changed for 250/400 ms): class ok/err/returned/blocked (blocked = not returned after 2 s quick, " +
-		"5 s thorough = >= 5x the longest legitimate time-out), IsStarted, number of close call-backs, number of Wait calls still blocked. " +
+		"operation after everything settled (nothing changed for 250/400 ms and 25 consecutive samples): class ok/err/returned/blocked (blocked = not returned after 2 s quick, " +
+		"5 s thorough = >= 5x the longest legitimate time-out; accepted only if a second run with twice the bound observes the same; a sequence that " +
+		"overlaps a stall of the whole process - a 10 ms heartbeat late by more than 200 ms - is run again), IsStarted, number of close call-backs, number of Wait calls still blocked. " +
 		"corr: the observation sequence is one the LTS under the switches of the current code predicts; holds: it is one the LTS with all three " +
 		"defects off predicts. non-trivial: the sequence contains a fault or a restart."
 	return nil
